@@ -68,6 +68,7 @@ type siteWalker struct {
 	sessCalls []*sessCall
 	delegates map[string]map[int]bool
 	delegated []string
+	nilParams map[string]map[int]bool // node key -> parameter indices some call passes nil for
 	// policy obligation
 	appendFacts []appendSite
 	switches    []panicSwitch
@@ -153,6 +154,7 @@ func (w *siteWalker) run() {
 		a.cur, a.curPkg = n, n.Pkg
 		w.collectDefs(n.Body)
 	}
+	w.collectNilParams()
 	for _, n := range a.nodeList {
 		if n.Decl == nil {
 			continue
@@ -607,6 +609,7 @@ func (w *siteWalker) expr(e ast.Expr, fs Facts, ctx string) {
 	case *ast.SelectorExpr:
 		w.expr(e.X, fs, "raw")
 		w.msgDeref(e, e.X, fs)
+		w.nilParamDeref(e, fs)
 	case *ast.TypeAssertExpr:
 		if e.Type == nil {
 			w.expr(e.X, fs, "typeswitch")
